@@ -32,7 +32,7 @@ EXTRACT_FILES = ["X16", "X16G"]
 DRIVERS = ["x16", "x16g"]
 RULE = ("ROI sweep on a 5x4 raster: every (first,last) pair in [-3, n+2] per axis with zero margins (exhaustive), plus a "
         "seeded sample of the cube first,last in [-3,n+2]^4 x margins {0,1,3}^4; random datasets (size, dtype, 1-3 bands, "
-        "nodata in {-9999,0,7,NaN,+inf,-inf}, masks with values in {-5,-1,0,1,2,255}, disparity pair/grids, classif, segm) "
+        "nodata in {-9999,0,7,NaN,+inf,-inf}, masks (int16 / uint8 / uint16 / int32 rasters) with values in {-5,-1,0,1,2,255} and, on the wider types, 256, 32768, 65535, +-65536, 131072, 2^24, -2^31, 2^31-1, disparity pair/grids, classif, segm) "
         "read whole and through random ROIs; a case is non-trivial when the ROI is clipped or refused or when the dataset "
         "has a nodata pixel or a non-zero mask value; distinct by (raster id, roi)")
 ASSUMES = [
@@ -143,10 +143,12 @@ def gen_dataset_case(rng, rows, cols, force=None):
     names = rng.sample(NAMES[:4], nb) if rng.random() < 0.85 else [None] * nb
     case = {"rows": rows, "cols": cols, "dtype": dtype, "img": [[[js(v) for v in r] for r in b] for b in img],
             "names": names, "nodata": js(nodata)}
-    mk = force.get("mask", rng.choice(["none", "absent", "int16", "int16", "uint8"]))
+    mk = force.get("mask", rng.choice(["none", "absent", "int16", "int16", "uint8", "int32", "uint16"]))
     case["mask_kind"] = mk
-    if mk in ("int16", "uint8"):
-        vals = MASK_VALUES if mk == "int16" else [0, 0, 0, 1, 2, 255]
+    if mk in MASK_DTYPES:
+        # wider mask rasters (quality bit fields): non-zero values whose low 8 / 16 bits are all zero
+        vals = {"int16": MASK_VALUES, "uint8": [0, 0, 0, 1, 2, 255], "uint16": [0, 0, 0, 1, 256, 32768, 65535],
+                "int32": [0, 0, 0, 1, -1, 256, 65536, -65536, 131072, 1 << 24, -(1 << 31), (1 << 31) - 1]}[mk]
         case["mask"] = [[rng.choice(vals) for _ in range(cols)] for _ in range(rows)]
     dk = force.get("disp", rng.choice(["absent", "none", "pair", "pair", "grid"]))
     case["disp_kind"] = dk
@@ -168,6 +170,9 @@ def gen_dataset_case(rng, rows, cols, force=None):
     if "segm" not in case and rng.random() < 0.3:
         case["segm_none"] = True
     return case
+
+
+MASK_DTYPES = ("int16", "uint8", "int32", "uint16")
 
 
 def write_tif(path, arr, dtype, names=None):
@@ -203,7 +208,7 @@ class Files:
         self.nodata = unjs(case["nodata"])
         self.cfg = {"img": p, "nodata": self.nodata}
         self.mask = None
-        if case["mask_kind"] in ("int16", "uint8"):
+        if case["mask_kind"] in MASK_DTYPES:
             self.mask = np.array(case["mask"], dtype=np.int64)
             pm = os.path.join(d, "mask.tif")
             write_tif(pm, self.mask, case["mask_kind"])
